@@ -313,6 +313,10 @@ def in_statements():
         'str-in-int': (k, select([(j, None)], from_='u')),
         'int-in-str': (v, select([(s, None)], from_='u')),
         'null-literal': (C(None), select([(j, None)], from_='u')),
+        # the left operand itself contains a membership test (over a list, over another sub-query)
+        'left-in-list': (A.In(k, C(['a', 'Ab'])), select([(A.Greater(j, C(1)), 'b')], from_='u')),
+        'left-in-subquery': (A.In(v, select([(j, None)], from_='u')), select([(A.IsNull(s), 'b')], from_='u')),
+        'left-notin-subquery': (A.NotIn(v, select([(j, None)], from_='u', where=A.IsNotNull(j))), select([(A.Greater(j, C(1)), 'b')], from_='u')),
         'date': (F('date_add', C(datetime.date(2020, 1, 1)), v), select([(F('date_add', C(datetime.date(2020, 1, 1)), j), 'd')], from_='u')),
     }
     out = []
